@@ -27,6 +27,7 @@ const (
 	cjEval                // eval("next()")
 	cjClass               // new (class { constructor(){ this.v = next(); } })
 	cjHostIter            // next() is called from the body of a for-of / an array destructuring default over a HOST-implemented iterator
+	cjIterBuiltin         // next() is called from the per-element callback of an iterate()-based built-in (Array.from mapper, Set subclass add(), Promise.all resolve) over a host-implemented iterator / a generator
 	cnFunc                // func(FunctionCall) Value; AssertFunction(next); panic(err)
 	cnReflect             // func() (Value, error); returns err as is
 	cnReflectWrap         // func() (Value, error); returns fmt.Errorf("ctx: %w", err)
@@ -44,11 +45,11 @@ const (
 	nChainKinds
 )
 
-var chKindCodes = [...]string{"Jp", "Jr", "Jf", "Jb", "Js", "Jw", "Jg", "Jx", "Jn", "Jj", "Je", "Jk", "Ji",
+var chKindCodes = [...]string{"Jp", "Jr", "Jf", "Jb", "Js", "Jw", "Jg", "Jx", "Jn", "Jj", "Je", "Jk", "Ji", "Ja",
 	"Nf", "Nr", "Nw", "Np", "Nc", "Ne", "Nx", "Ng", "No", "Nt", "Nd", "Ns", "Nk", "Nn"}
 
 var chKindNames = [...]string{"J-plain", "J-catch-rethrow", "J-finally", "J-catch-rethrow+finally", "J-catch-swallow", "J-catch-wrap",
-	"J-getter", "J-proxy-trap", "J-generator", "J-promise", "J-eval", "J-class-ctor", "J-host-iterator",
+	"J-getter", "J-proxy-trap", "J-generator", "J-promise", "J-eval", "J-class-ctor", "J-host-iterator", "J-iterate-builtin",
 	"N-FunctionCall", "N-reflect(error)", "N-reflect-wrapped(%w)", "N-reflect-noerr(panic)", "N-ConstructorCall", "N-ExportTo(error)",
 	"N-ExportTo(panic)", "N-Try+Get", "N-Try+ForOf", "N-ProxyTrapConfig", "N-DynamicObject", "N-swallow", "N-AssertConstructor", "N-RunProgram"}
 
@@ -58,9 +59,16 @@ var chKindTable = [...]int{cjPlain, cjRethrow, cjFinally, cjBoth, cjSwallow, cjW
 	cnSwallow, cnCtorReenter, cnRunProgram,
 	cjRethrow, cjRethrow, cjFinally, cjFinally, cjBoth, cjWrap, cnReflectWrap, cnReflectWrap, cnReflectWrap, cnFunc, cnReflect, cnExportErr,
 	cnReflectNoErr, cnExportPanic, cnDynamic, cnProxyCfg, cnCtor, cjJob,
-	cjHostIter, cjHostIter, cjHostIter, cjHostIter, cjHostIter, cjHostIter}
+	cjHostIter, cjHostIter, cjHostIter, cjHostIter, cjHostIter, cjHostIter,
+	cjIterBuiltin, cjIterBuiltin, cjIterBuiltin, cjIterBuiltin, cjIterBuiltin, cjIterBuiltin, cjIterBuiltin}
 
 func chIsNative(k int) bool { return k >= cnFunc }
+
+// iterate()-based built-ins and non-goja Go panics: (a) one raised by the per-element callback passes without the iterator's
+// return() being called, (b) one raised by return() itself while an exception from the callback propagates takes over and
+// reaches the host. goja used to classify panics in iteratorRecord.iterate() with asUncatchableException() only (return()
+// ran during a foreign panic, and a foreign panic from return() was swallowed); repaired, asserted by default.
+var chStrictIterateForeign = os.Getenv("VERIF_C14_ITERATE_FOREIGN") != "0"
 
 var chStrictForOf = os.Getenv("VERIF_C14_FOROF_STACK") != "0" // goja repaired (commit 941aac2): asserted by default
 
@@ -79,24 +87,43 @@ const (
 	nIterSel
 )
 
+// cjIterBuiltin variants (sel): which built-in drives the iterator through iteratorRecord.iterate()
+const (
+	biArrayFrom    = iota // Array.from(HI(), function(v){ return B(K, next()); })[0]
+	biSetAdd              // new (class extends Set { add(v){ r = B(K, next()); } })(HI())
+	biArrayFromGen        // Array.from(g(), mapper) over function* g(){ try { yield 1; } finally { F(K, ok); } }
+	biPromiseAll          // Promise.all.call(PK, HI()) with PK.resolve calling next(): exceptions reject the result promise
+	nBuiltinSel
+)
+
+var chBuiltinSelNames = [...]string{"Array.from mapper", "Set subclass add()", "Array.from mapper over a generator with try/finally", "Promise.all with a patched resolve"}
+
+// chUsesHostIter: the frame consumes a host-implemented iterator HI<K>() (its return() / next() are the schedule's to decide)
+func (f chFrame) usesHostIter() bool {
+	return f.kind == cjHostIter || f.kind == cjIterBuiltin && f.sel%nBuiltinSel != biArrayFromGen
+}
+
 var chIterSelNames = [...]string{"for-of left by return", "for-of left by break", "for-of run to exhaustion", "array destructuring default"}
 
 // what the native return() does when the iterator is closed
 const (
-	retNothing        = iota
-	retValue          // panic(Value)
-	retException      // panic(*Exception) captured earlier
-	retGoError        // reflect-style return of a Go error
-	retForeignString  // panic("...")
-	retForeignStruct  // panic(chForeignStruct{...})
-	retForeignRuntime // nil map write
-	retInterrupt      // rt.Interrupt(v), then normal return
+	retNothing         = iota
+	retValue           // panic(Value)
+	retException       // panic(*Exception) captured earlier
+	retGoError         // reflect-style return of a Go error
+	retForeignString   // panic("...")
+	retForeignStruct   // panic(chForeignStruct{...})
+	retForeignRuntime  // nil map write
+	retInterrupt       // rt.Interrupt(v), then normal return
+	retWrappedOverflow // a nested call made by return() overflows the call stack; return() hands back fmt.Errorf("...: %w", err)
 	nRetActs
 )
 
-var chRetActNames = [...]string{"nothing", "panic-value", "panic-exception", "go-error", "foreign-string", "foreign-struct", "foreign-runtime-error", "interrupt"}
+var chRetActNames = [...]string{"nothing", "panic-value", "panic-exception", "go-error", "foreign-string", "foreign-struct", "foreign-runtime-error", "interrupt", "wrapped-overflow"}
 var chRetActTable = [...]int{retNothing, retNothing, retNothing, retValue, retValue, retException, retGoError, retForeignString, retForeignString,
-	retForeignStruct, retForeignStruct, retForeignRuntime, retForeignRuntime, retInterrupt, retInterrupt, retNothing}
+	retForeignStruct, retForeignRuntime, retForeignRuntime, retInterrupt, retInterrupt, retWrappedOverflow, retWrappedOverflow}
+
+func chRetUncatchable(a int) bool { return a == retInterrupt || a == retWrappedOverflow }
 
 func chRetForeign(a int) bool { return a >= retForeignString && a <= retForeignRuntime }
 func chRetThrows(a int) bool  { return a == retValue || a == retException || a == retGoError }
@@ -291,6 +318,7 @@ type chModel struct {
 	truncatedAt                                                                                                     int // >0: next() of this frame threw, deeper frames never run
 	iterClosedOnThrow, iterClosedOnReturn, retThrowIgnored, retThrowReplaced, retForeignOnThrow, retForeignOnReturn bool
 	iterNotClosedAbrupt, nextThrew                                                                                  bool
+	builtinClosedOnThrow, builtinNotClosedAbrupt                                                                    bool
 }
 
 func (m *chModel) ev(seg int, f string, a ...interface{}) {
@@ -342,7 +370,7 @@ func chPredict(frames []chFrame, entry int, root chState, iv []chIterVals) *chMo
 		if chIsNative(f.kind) {
 			m.ev(m.segOf[k], "N%d", k)
 		}
-		if f.kind == cjHostIter {
+		if f.usesHostIter() {
 			m.ev(m.segOf[k], "I%d", k)
 			m.ev(m.segOf[k], "n%d", k)
 			if f.nextAct == nextThrowFirst {
@@ -356,8 +384,13 @@ func chPredict(frames []chFrame, entry int, root chState, iv []chIterVals) *chMo
 	}
 	// way out
 	var s chState
-	if m.truncatedAt > 0 {
-		s = chState{kind: csThrow, p: iv[m.truncatedAt].nextPay, someTop: true}
+	if k := m.truncatedAt; k > 0 {
+		s = chState{kind: csThrow, p: iv[k].nextPay, someTop: true}
+		if f := frames[k-1]; f.kind == cjIterBuiltin && f.sel%nBuiltinSel == biPromiseAll {
+			// Promise.all turns it into a rejection of its result promise
+			m.ev(k, "C%d(%s)", k, s.p.class)
+			s = chState{kind: csNormal, normal: fmt.Sprintf("job-%d", k)}
+		}
 	} else {
 		m.ev(m.segOf[n+1], "R")
 		s = root
@@ -518,6 +551,60 @@ func chPredict(frames []chFrame, entry int, root chState, iv []chIterVals) *chMo
 			default:
 				// a foreign panic or an uncatchable condition passes: return() must NOT be called (no event)
 				m.iterNotClosedAbrupt = true
+			}
+		case cjIterBuiltin:
+			// iteratorRecord.iterate(): the built-in calls next(), then the callback (which calls the next frame).
+			// ECMA-262 IfAbruptCloseIterator: a throw from the callback closes the iterator (return()'s own throw is ignored)
+			// and goes on; the iterator ending by itself or throwing from next() is not closed. An uncatchable condition - bare
+			// or wrapped through any %w chain - or a foreign panic passes without return() being called: no event.
+			v := f.sel % nBuiltinSel
+			switch s.kind {
+			case csNormal:
+				m.ev(seg, "b%d", k)
+				if v == biArrayFromGen {
+					m.ev(seg, "F%d(1)", k) // the generator resumes, runs its finally block and completes
+					break
+				}
+				m.ev(seg, "n%d", k)
+				if f.nextAct == nextThrowSecond {
+					m.nextThrew = true
+					s = chState{kind: csThrow, p: iv[k].nextPay, someTop: true}
+				}
+			case csThrow:
+				m.builtinClosedOnThrow = true
+				if v == biArrayFromGen {
+					m.ev(seg, "F%d(0)", k) // generator.return() runs the finally block
+					break
+				}
+				m.ev(seg, "r%d", k)
+				switch {
+				case chRetThrows(f.retAct):
+					m.retThrowIgnored = true
+				case chRetForeign(f.retAct) && chStrictIterateForeign:
+					m.retForeignOnThrow = true
+					s = chState{kind: csForeign, foreign: iv[k].foreign, foreignRT: iv[k].foreignRT}
+				}
+			default:
+				m.builtinNotClosedAbrupt = true
+				if !chStrictIterateForeign {
+					// known deviation (a): the iterator is closed although a foreign panic is propagating; whatever return()
+					// throws or panics with is dropped
+					if v == biArrayFromGen {
+						m.ev(seg, "F%d(0)", k)
+					} else {
+						m.ev(seg, "r%d", k)
+					}
+				}
+			}
+			if v == biPromiseAll {
+				switch s.kind {
+				case csNormal:
+					s = chState{kind: csNormal, normal: fmt.Sprintf("job-%d", k)}
+				case csThrow:
+					// the result promise is rejected with the value; the .catch handler (a later job) sees that very value
+					m.ev(k, "C%d(%s)", k, s.p.class)
+					s = chState{kind: csNormal, normal: fmt.Sprintf("job-%d", k)}
+				}
 			}
 		case cjGen:
 			if v := f.sel % nGenSel; catchable && (v == genForOf || v == genDestructure) && !chStrictForOf {
